@@ -381,15 +381,17 @@ pub fn recheck(case: &Value) -> Vec<Viol> {
             let Ok(m) = serde_json::from_value::<RMap>(case["model"].clone()) else { return vec![] };
             let mut v = check_regular(&m, how, case["derived"].as_bool().unwrap_or(true)).0;
             if let Ok(Some(sm)) = guarded(|| construct(&m, how)) {
-                if let Ok(Ok(bytes)) = guarded(|| data_url_payload(&sm)) {
-                    match serde_json::from_slice::<Value>(&bytes) {
+                match guarded(|| data_url_payload(&sm)) {
+                    Ok(Ok(bytes)) => match serde_json::from_slice::<Value>(&bytes) {
                         Ok(val) => {
                             if let Err((sig, what)) = check_regular_value(&val, &sm, "$dataurl") {
                                 v.push(Viol::new(format!("C03/{sig}/data-url"), what, case.clone()));
                             }
                         }
                         Err(e) => v.push(Viol::new("C03/not-json/data-url", format!("{e}"), case.clone())),
-                    }
+                    },
+                    Ok(Err(e)) => v.push(Viol::new("C03/data-url/undecodable", format!("to_data_url payload: {e}"), case.clone())),
+                    Err(p) => v.push(Viol::new(format!("C03/panic/{}", panic_class(&p)), format!("to_data_url panicked: {p}"), case.clone())),
                 }
             }
             v
